@@ -303,7 +303,10 @@ CLAIMS = {
          "topo_sort_packages (+ ids of a whole compile) on generated package directories and on raw graphs (all 3-package graphs) equal "
          "the model's output. Everything after discovery (typer, passes, printers, artefact hashes) is NOT modelled: it is covered by the "
          "differential oracle only — K-fold recompilation in one process (fresh hash keys, permuted directory creation) and in child "
-         "processes, comparing Go text, every stage dump, diagnostics, interface/core bytes and hashes, link results byte for byte.",
+         "processes, comparing Go text, every stage dump, diagnostics, interface/core bytes and hashes, link results byte for byte. "
+         "The recompiled projects include an emission-collections family: well-typed programs with k = 2..6 members of each collection the "
+         "middle/back end prints (Go packages of extern functions / extern types, tuple / array / Ref / Vec types, structs, enums, dyn "
+         "traits x implementors, generic and bounded instances, closures, go statements, externs spread over k packages through build + link).",
     design_ref="§5 C13, §C13 — as built",
     note="Trusted: Lean kernel; tools/extract.py gen_package_ids; error-message classification and the project generator in harness/src/c13.rs; "
          "SipHash-128 digests for the cross-process comparison; String order in Rust = Lean. tools/hashiter.py (source scan of HashMap/HashSet "
